@@ -116,17 +116,21 @@ func jsonEscape(value Expr) interface{} {
 			result[name] = jsonEscape(value)
 		}
 		return result
-	case String:
-		return string(x.s)
 	case EmptySet:
 		return false
-	case Array:
-		array := make([]interface{}, 0, x.Count())
-		for e := x.ArrayEnumerator(); e.MoveNext(); {
-			array = append(array, jsonEscape(e.Current()))
-		}
-		return map[string]interface{}{"{||}": array}
 	case Set:
+		// Strings and arrays that start at 0 and have no holes have a JSON form of their own; every
+		// other set is written as {"{||}": [members...]}.
+		if s, is := x.(String); is && s.offset == 0 && s.holes == 0 {
+			return string(s.s)
+		}
+		if a, is := x.(Array); is && a.offset == 0 && a.count == len(a.values) {
+			array := make([]interface{}, 0, a.Count())
+			for e := a.ArrayEnumerator(); e.MoveNext(); {
+				array = append(array, jsonEscape(e.Current()))
+			}
+			return array
+		}
 		if x.Equal(True) {
 			return true
 		}
@@ -176,7 +180,7 @@ func jsonUnescape(i interface{}) (Value, error) {
 							}
 							items = append(items, value)
 						}
-						return NewArray(items...), nil
+						return NewSet(items...)
 					}
 					return nil, errors.Errorf(
 						`x must be array in {"{||}": x}, not %T`, value)
